@@ -127,7 +127,17 @@ pub fn gen_case_cfg(t: &mut Tape, hazard: Option<&'static str>, hazard_names: bo
             let b = crate::model::print::ident(uniq[t.choose(uniq.len())]);
             // (a take far from its sort is a recorded finding: the take is only added to unsorted programs)
             let split = if source.contains("sort") { "" } else { *t.pick(&[" | take 7", " | take 2..9", "", " | filter true | take 7"]) };
-            let tail = match t.choose(4) {
+            // (set operations on a sorted top carry the sort key into one operand only: the recorded
+            // C01-append-pruning family; they are added to unsorted programs)
+            // ... and after group / aggregate / join the bottom operand of `remove` loses its columns
+            // (`SELECT FROM t1 ... EXCEPT ALL`, same family; observed, see DESIGN 10.4): plain tops only
+            let plain = !["sort", "group", "aggregate", "join", "append"].iter().any(|w| source.contains(w));
+            let nvar = if plain { 7 } else { 4 };
+            let tail = match t.choose(nvar) {
+                // set operations against a one-column relation (with and without de-duplication)
+                4 => format!(" | select {{{a}}} | intersect (from t1 | select {{id}})"),
+                5 => format!(" | select {{{a}}} | remove (from t1 | select {{id}})"),
+                6 => format!(" | select {{{a}}} | intersect (from t1 | select {{id}}) | group {{{a}}} (take 1)"),
                 0 => format!("{split} | filter (1 | in [{a}, {b}]) | select {{zq17 = 2}}"),
                 1 => format!("{split} | derive {{zq18 = (0 | in [{a}, {b}])}} | select {{zq18}}"),
                 2 => format!("{split} | filter ({a} | in [{b}, {a}]) | select {{zq19 = 3}}"),
@@ -208,6 +218,14 @@ pub fn check(case: &Case, known: &Known, mode: Mode, hazard: bool) -> Outcome {
             Ok(Ok(s)) => s,
         };
         compiled += 1;
+        // set operators a dialect does not have (sqlparser's dialect parsers accept ALL everywhere):
+        // T-SQL knows only UNION [ALL], EXCEPT and INTERSECT
+        if mode == Mode::C07 && *dn == "mssql" && (sql.contains("INTERSECT ALL") || sql.contains("EXCEPT ALL")) {
+            return Outcome::fail(
+                "emitted SQL uses a set operator the mssql dialect does not have (EXCEPT ALL / INTERSECT ALL)",
+                json!({"source": src, "dialect": dn, "sql": sql}),
+            );
+        }
         let bound = match sqlbind::bind(&sql, dn, &schema) {
             Parsed::Syntax(e) => {
                 if *dn == "ansi" && sql.contains("_expr_") && (e.contains("identifier") || e.contains("found: _")) && known.is_open(F_ANSI) {
